@@ -139,6 +139,59 @@ def _moveaxis_transpose(ctx, ck, move, fn, why_structural) -> None:
                   f'{wrong[0] if wrong else ""} ({len(wrong)} of {n} requests)', instance='moveaxis transpose', semantic=True)
 
 
+def _reshape_validation_by_evaluation(ctx, reshape):
+    """(number of cases, problems) or None: ReshapeOperator(target, in_structure=tree) constructed (sa/axinterp.py) on pytrees of
+    one to three leaves and targets with and without -1: ValueError exactly when some leaf cannot take the target shape."""
+    import math
+
+    from ..axinterp import Interp, Raised, StructLeaf, Undecided
+    from ..classes import CORE
+
+    world, table = ctx.world, ctx.table
+    base = table.get(f'{CORE}.AbstractLinearOperator')
+    out_fn = base.own.get('out_structure')
+
+    def leaf(shape, tag):
+        return StructLeaf(tuple((frozenset({f'{tag}{j}'}), n) for j, n in enumerate(shape)), 'float32')
+
+    trees = [[(2, 3)], [(2, 3), (5,)], [(5,), (2, 3)], [(6,), (2, 3)], [(2, 3), (3, 2), (4,)], [(2, 3), (2, 3), (7,)]]
+    targets = [(2, 3), (6,), (3, 2), (-1,), (3, -1), (5,), (-1, 4), (1, 6)]
+
+    def fits(shape, target):
+        size = math.prod(shape)
+        if -1 in target:
+            rest = math.prod(x for x in target if x != -1)
+            return rest != 0 and size % rest == 0
+        return math.prod(target) == size
+
+    problems: list[str] = []
+    n = 0
+    for tree in trees:
+        struct = [leaf(sh, f'l{i}_') for i, sh in enumerate(tree)]
+        struct = struct[0] if len(struct) == 1 else struct
+        for target in targets:
+            n += 1
+            it = Interp(world, table, budget=40_000)
+            if isinstance(out_fn, ast.FunctionDef):
+                it.summaries[id(out_fn)] = lambda args, kwargs: args[0].attrs.get('_in_structure')
+            want_ok = all(fits(sh, target) for sh in tree)
+            what = f'ReshapeOperator({target}) on leaves of shapes {tree}'
+            try:
+                it.construct(reshape, target, in_structure=struct)
+                raised = None
+            except Raised as exc:
+                raised = exc.name
+            except Undecided:
+                return None
+            if it.degraded:
+                return None
+            if want_ok and raised:
+                problems.append(f'{what} is refused ({raised}) although every leaf can take that shape')
+            if not want_ok and raised != 'ValueError':
+                problems.append(f'{what} is ' + (f'refused with {raised} instead of ValueError' if raised else 'accepted although a leaf cannot take that shape (it only fails when applied)'))
+    return n, problems
+
+
 def _ravel_by_evaluation(ctx, ck, ravel) -> bool:
     """A1/A2/reduce for RavelOperator, decided by following the axes (sa/axinterp.py) for every pair (first, last) in -4..3 on
     leaves of rank 1-4 and on a pytree of two leaves of different ranks: a legal pair merges exactly the axes first..last of
@@ -398,7 +451,12 @@ def _run(ctx, ck) -> bool:
         in_loop = any(ev[0] == 'iter' and ev[2] and term(ev[1].iter) == leaves_t for ev in p.events)
         if in_loop and any(f[0] == 'lt' and 'ndim' in show(f[1]) and 'ndim' in show(f[2]) for f in fs):
             per_leaf = True
-    ck.expect('A2', per_leaf, init, 'with axes of mixed sign the order is checked on every leaf (it depends on the rank of the leaf)', 'mixed-sign ravel axes are no longer validated against every leaf', instance='ravel mixed-sign per leaf')
+    if not per_leaf and any(o.rule.endswith('A1') and 'ravel by evaluation' in o.construct and o.status == 'ok' for o in ck.obs):
+        # decided by the evaluation of RavelOperator on pytrees of leaves of different ranks (A1: a pair whose first axis comes after
+        # the last one on some leaf is refused at construction)
+        ck.ok('A2', init, 'with axes of mixed sign the order is checked on every leaf: decided by evaluation on pytrees of two ranks (A1)', instance='ravel mixed-sign per leaf')
+    else:
+        ck.expect('A2', per_leaf, init, 'with axes of mixed sign the order is checked on every leaf (it depends on the rank of the leaf)', 'mixed-sign ravel axes are no longer validated against every leaf', instance='ravel mixed-sign per leaf')
 
     # ... and for every pair of axes of opposite "signs" (one negative, the other >= 0, zero included) that per-leaf check is
     # reached: the conditions on (first, last) alone that guard it hold (enumerated over the order types of first, last, 0)
@@ -453,7 +511,13 @@ def _run(ctx, ck) -> bool:
         for f in fs:
             if f[0] == 'ne' and any('size' in show(x) and 'elem' in show(x) for x in f[1]) and any('prod(' in show(x) for x in f[1]):
                 size_guard = True
-    ck.expect('A2', size_guard, chk, 'a target shape whose size differs from the leaf size is refused, for every leaf', 'a target shape of a different size is no longer refused for every leaf', instance='reshape size per leaf')
+    verdict = None if size_guard else _reshape_validation_by_evaluation(ctx, reshape)
+    if verdict is not None:
+        ncases, problems = verdict
+        ck.expect('A2', not problems, chk, f'on {ncases} constructions (one to three leaves, targets with and without -1) the reshape operator is accepted exactly when every leaf can take the target shape',
+                  f'{problems[0] if problems else ""} ({len(problems)} of {ncases})', instance='reshape size per leaf', semantic=True)
+    else:
+        ck.expect('A2', size_guard, chk, 'a target shape whose size differs from the leaf size is refused, for every leaf', 'a target shape of a different size is no longer refused for every leaf', instance='reshape size per leaf')
     nfacts = [fs for fs, _, _ in raise_paths(norm, 'ValueError')]
     neg = any(f[0] == 'truth' and f[2] is True and f[1][0] == 'call' and f[1][1] == ('var', 'any') and ("'lt'" in repr(f[1]) and "neg" in repr(f[1])) for fs in nfacts for f in fs)
     second = any(f[0] == 'in' and f[3] is True and f[1] in (('unop', 'neg', ('const', '1')), ('const', '-1')) for fs in nfacts for f in fs)
